@@ -25,6 +25,8 @@ type propSpec struct {
 	Level    string
 	Extra    func(pc *propCheck) // non-contract components (sweeps, regex, bounded)
 	Filter   func(o *Obligation) bool // which obligations of the contracts belong to this property (nil: all)
+	Setup    func(p *Program)          // policies (inlining, nil checks) for this property's packages
+	Sweep    func(p *Program) []*Contract // default contracts for functions without an explicit one
 }
 
 var props = map[string]*propSpec{}
@@ -73,8 +75,11 @@ type propCheck struct {
 	ExtraKnown       []string
 	Samples   []any
 	Bounded   []string
+	Unclaimed map[string]string // obligation name -> reason (committed list of sites that are not claimed)
+	witnessCache map[string]witnessOutcome
 	replayCache map[string]replayResult
 	replays   map[*Obligation]replayResult
+	models    map[*Obligation]string
 	nReplayTried, nReplayConfirmed int
 }
 
@@ -113,6 +118,10 @@ func main() {
 	case "dump":
 		// dump <pattern,...> <contract name>: print the prelude and obligations
 		os.Exit(runDump(os.Args[2:]))
+	case "witnesses":
+		os.Exit(runWitnessCorpus())
+	case "dumpfn":
+		os.Exit(runDumpFn(os.Args[2], os.Args[3]))
 	case "replay":
 		os.Exit(runReplay(os.Args[2:]))
 	case "list":
@@ -155,6 +164,10 @@ func runCheck(id, tier string) int {
 	if tier == "thorough" {
 		pc.Timeout = 60
 	}
+	if t, err := strconv.Atoi(os.Getenv("GVC_TIMEOUT")); err == nil && t > 0 {
+		pc.Timeout = t
+	}
+	pc.Unclaimed = loadUnclaimed(id)
 	work, err := os.MkdirTemp("", "gvc-"+id+"-")
 	if err != nil {
 		fmt.Fprintln(os.Stderr, err)
@@ -173,6 +186,9 @@ func runCheck(id, tier string) int {
 		return 2
 	}
 	pc.P = p
+	if ps.Setup != nil {
+		ps.Setup(p)
+	}
 	var cons []*Contract
 	for _, cf := range p.conFiles {
 		for _, c := range cf.Contracts {
@@ -180,6 +196,9 @@ func runCheck(id, tier string) int {
 				cons = append(cons, c)
 			}
 		}
+	}
+	if ps.Sweep != nil {
+		cons = append(cons, ps.Sweep(p)...)
 	}
 	for _, c := range cons {
 		r := p.verifyFunc(c)
@@ -206,7 +225,11 @@ func runCheck(id, tier string) int {
 			}
 		}
 	}
+	tGen := time.Since(t0)
 	pc.discharge()
+	if os.Getenv("GVC_VERBOSE") != "" {
+		fmt.Fprintf(os.Stderr, "timing: load+generate %.1fs, solve %.1fs\n", tGen.Seconds(), (time.Since(t0) - tGen).Seconds())
+	}
 	if ps.Extra != nil {
 		ps.Extra(pc)
 	}
@@ -221,10 +244,20 @@ func (pc *propCheck) discharge() {
 			byVC[o] = r.vc
 		}
 	}
+	kfNames := map[string]bool{}
+	for _, k := range loadKnown().Findings {
+		if k.Property == pc.ID && k.Status == "open" {
+			kfNames[k.Obligation] = true
+		}
+	}
 	sem := make(chan struct{}, runtime.NumCPU())
 	var wg sync.WaitGroup
 	for i, o := range pc.Obls {
 		if o.Result != nil {
+			continue
+		}
+		if _, un := pc.Unclaimed[o.Name]; un && pc.Tier != "thorough" {
+			o.Result = &SolverResult{Status: "skipped", Solver: "unclaimed"}
 			continue
 		}
 		if o.Guard == "false" && !o.Cover {
@@ -242,7 +275,18 @@ func (pc *propCheck) discharge() {
 			defer wg.Done()
 			sem <- struct{}{}
 			defer func() { <-sem }()
-			r := solveFast(o.File, pc.Timeout, pc.Tier == "thorough" && !o.Cover && !o.MustFail)
+			var r SolverResult
+			if kfNames[o.Name] && pc.Tier != "thorough" {
+				// listed finding: expected not to discharge; one short attempt
+				st, out, d := runOne(context.Background(), solvers[0], o.File, 2)
+				r = SolverResult{Status: st, Solver: solvers[0].name, Time: d, Output: out, All: map[string]string{solvers[0].name: st}}
+			} else if o.Cover || o.MustFail {
+				// vacuity queries: only `unsat` matters; one solver, short timeout
+				st, out, d := runOne(context.Background(), solvers[0], o.File, 1)
+				r = SolverResult{Status: st, Solver: solvers[0].name, Time: d, Output: out, All: map[string]string{solvers[0].name: st}}
+			} else {
+				r = solveFast(o.File, pc.Timeout, pc.Tier == "thorough")
+			}
 			o.Result = &r
 		}(o)
 	}
@@ -294,6 +338,7 @@ func (pc *propCheck) report(t0 time.Time) int {
 	var violations []*Obligation
 	var reasons = map[*Obligation]string{}
 	kfSeen := map[string]bool{}
+	var unclaimedSeen []string
 	solverCount := map[string]int{}
 	solverTime := 0.0
 	var samples []any
@@ -312,6 +357,13 @@ func (pc *propCheck) report(t0 time.Time) int {
 				violations = append(violations, o)
 				reasons[o] = reason
 			}
+			continue
+		}
+		if reason, un := pc.Unclaimed[o.Name]; un {
+			if ok && o.Result.Status == "unsat" {
+				fmt.Printf("NOTE: property=%s unclaimed obligation now discharges: %s\n", pc.ID, o.Name)
+			}
+			unclaimedSeen = append(unclaimedSeen, o.Name+" — "+reason)
 			continue
 		}
 		if _, isKnown := kfOpen[o.Name]; isKnown {
@@ -361,11 +413,19 @@ func (pc *propCheck) report(t0 time.Time) int {
 		}
 	}
 	pc.replays = map[*Obligation]replayResult{}
+	pc.models = map[*Obligation]string{}
 	for _, o := range violations {
 		exit = 1
 		if !o.MustFail && !o.Cover && o.Kind != "engine" {
-			model := pc.getModel(o)
+			model := ""
+			if pc.hasLibraryHarness(conOf[o]) {
+				model = pc.getModel(o)
+				pc.models[o] = model
+			}
 			rr := pc.replayLibrary(o, conOf[o], model)
+			if !rr.Tried {
+				rr = pc.replayTranslator(o, conOf[o])
+			}
 			pc.replays[o] = rr
 			if rr.Tried {
 				pc.nReplayTried++
@@ -436,6 +496,7 @@ func (pc *propCheck) report(t0 time.Time) int {
 		"samples":                  samples,
 		"unchecked":                notes,
 		"engine_warnings":          warnings,
+		"unclaimed":                unclaimedSeen,
 		"replays_tried":            pc.nReplayTried,
 		"replays_confirmed":        pc.nReplayConfirmed,
 		"integers":                 "machine integers (64/32/16/8-bit vectors with wrap-around); no mathematical idealisation",
@@ -502,12 +563,8 @@ func (pc *propCheck) writeReplay(dir string, o *Obligation, reason string) strin
 	}
 	if o.File != "" {
 		// with a model if the solver said sat
-		if o.Result != nil && o.Result.Status == "sat" {
-			q, _ := os.ReadFile(o.File)
-			mf := o.File + ".model.smt2"
-			os.WriteFile(mf, append(q, []byte("(get-model)\n")...), 0o644)
-			_, out, _ := runOne(nil2ctx(), solvers[0], mf, 10)
-			fmt.Fprintf(&b, "---- model (z3-new) ----\n%s\n", truncate(out, 30000))
+		if m := pc.models[o]; m != "" {
+			fmt.Fprintf(&b, "---- model ----\n%s\n", truncate(m, 30000))
 		}
 		q, _ := os.ReadFile(o.File)
 		fmt.Fprintf(&b, "---- query ----\n%s\n", truncate(string(q), 200000))
@@ -568,5 +625,79 @@ func runReplay(args []string) int {
 		return 2
 	}
 	fmt.Print(string(b))
+	return 0
+}
+
+// runDumpFn: dump the VC of an arbitrary function under the default contract
+func runDumpFn(id, full string) int {
+	ps := props[id]
+	p, err := loadProgram(repoDir, ps.Patterns, nil)
+	if err != nil {
+		fmt.Fprintln(os.Stderr, err)
+		return 2
+	}
+	if ps.Setup != nil {
+		ps.Setup(p)
+	}
+	var con *Contract
+	for name := range p.fns {
+		if strings.HasSuffix(name, full) {
+			con = p.contracts[name]
+			if con == nil {
+				con = &Contract{FuncName: full, Full: name, Pkg: p.pkgPathOf(p.fns[name]), Clauses: []*Clause{{Kind: "may_reject"}, {Kind: "noframe"}, {Kind: "use", Text: "ast"}}}
+			}
+		}
+	}
+	if con == nil {
+		fmt.Fprintln(os.Stderr, "no such function")
+		return 2
+	}
+	r := p.verifyFunc(con)
+	for _, d := range r.vc.decls {
+		fmt.Println(d)
+	}
+	for _, o := range r.vc.obls {
+		fmt.Printf("; OBLIGATION %s\n;   guard %s\n;   goal %s\n", o.Name, o.Guard, o.Goal)
+	}
+	if r.err != "" {
+		fmt.Println("; ERROR", r.err)
+	}
+	return 0
+}
+
+// unclaimed.json: {"C07": {"obligation name": "reason", ...}, ...} — sites that
+// neither discharge nor replay; committed, never written at run time.
+func loadUnclaimed(id string) map[string]string {
+	b, err := os.ReadFile(filepath.Join(verifDir, "unclaimed.json"))
+	if err != nil {
+		return map[string]string{}
+	}
+	all := map[string]map[string]string{}
+	if err := json.Unmarshal(b, &all); err != nil {
+		fmt.Fprintf(os.Stderr, "unclaimed.json: %v\n", err)
+		os.Exit(2)
+	}
+	if m := all[id]; m != nil {
+		return m
+	}
+	return map[string]string{}
+}
+
+// runWitnessCorpus: run every witness and print how it behaves (maintenance command)
+func runWitnessCorpus() int {
+	work, _ := os.MkdirTemp("", "gvc-wit-")
+	defer os.RemoveAll(work)
+	pc := &propCheck{WorkDir: work}
+	bad := 0
+	for _, w := range loadWitnesses() {
+		o := pc.runWitness(w)
+		st := "as-expected"
+		if !o.Behaved {
+			st = "NOT-AS-EXPECTED"
+			bad++
+		}
+		fmt.Printf("%-16s %-24s expect=%-22s %s\n", st, w.Name, w.Expect, o.Observed)
+	}
+	fmt.Printf("%d witnesses not as expected\n", bad)
 	return 0
 }
